@@ -342,16 +342,22 @@ def run(pid, tier, seed, a, t0):
     if P.get('closure_tags'):
         # functions already verified above WITH this property's clauses; a contract the ghost programs apply that carries no clause
         # of this property was selected above with nothing to prove and is verified here under its own (closure) tags
-        done = {q for q in fun_quals if pid in (contract.REGISTRY[q].tags or ())} if P.get('functional', True) else set()
-        pending = {q for q in contract.USE_LOG if q in contract.REGISTRY and contract.REGISTRY[q].setup is not None and not contract.REGISTRY[q].generic} - done
+        # A function whose contract carries this property's tag was verified above for the clauses OF this property only; a ghost program
+        # uses every clause of the contracts it applies, so those functions are verified here again under the closure tags and the
+        # obligations already produced above are dropped by name
+        done = set()
+        have = {r.name for r in all_results}
+        pending = {q for q in contract.USE_LOG if q in contract.REGISTRY and contract.REGISTRY[q].setup is not None and not contract.REGISTRY[q].generic}
         named = P.get('closure', ())
         if callable(named):
             named = named(contract.REGISTRY)         # a rule instead of a list (e.g. every _parse/_build contract stated relative to the start position)
-        pending |= {q for q in named if q in contract.REGISTRY} - done       # contracts a lemma-level argument rests on, named explicitly
+        pending |= {q for q in named if q in contract.REGISTRY}       # contracts a lemma-level argument rests on, named explicitly
         while pending:
             contract.USE_LOG.clear()
             qs = sorted(pending)
             res, oor, stats = driver.verify_functions(src, qs, tags=list(P['closure_tags']) + [pid], interface_factory=ConstructInterface, timeout=timeout, tier=tier)
+            res = [r for r in res if r.name not in have]
+            have |= {r.name for r in res}
             for r in res:
                 r.support = pid not in (r.ob.tags or ())
             all_results += res
